@@ -48,6 +48,8 @@ def run(model, res, tier):
     res.rule('R6', 'registered names are lexed as FUNCTION tokens')
     res.rule('R7', 'name resolution keeps no cache / shared state')
     res.rule('R9', 'the argument list reaches the function as written: one argument per separator-delimited slot, in order, whatever the argument values are (shared with C05.R3)')
+    res.rule('R10', 'the registry getter answers with the entry registered under exactly the requested name and with nothing for every other '
+             'spelling (another case, a dotted extension or a prefix of a registered name, surrounding blanks)')
     res.rule('R8', 'the lexer hands function and variable names on verbatim (token rules of name tokens return the token unmodified)')
     res.assumptions += ['A3 ply swallows SyntaxError raised in a reduce action', 'host callbacks do not raise SyntaxError themselves']
     res.trusted += ['CPython ast', 'ply 3.11 token ordering', 'Python re for membership of the 156 registry names in the token language']
@@ -57,6 +59,7 @@ def run(model, res, tier):
             raise AnalysisError('callback %s is not bound into the grammar parser (anchor vanished)' % need)
     _r1(model, res, c)
     _r2(model, res, c, cbs['call_function'])
+    _registry_getter(model, res, c)
     _r3(model, res, c, cbs['call_variable'])
     _r4(model, res, c)
     _r5(model, res, c)
@@ -690,3 +693,51 @@ def _r6(model, res, c):
                 res.violation('R6', 'lexer:t_%s:preempts-function-names' % t.name, g.lexer_module.where(t.node),
                               'token %s is tried before FUNCTION and can match at the first character of a function name (%r)'
                               % (t.name, clash[0]), func='t_' + t.name)
+
+
+# ---------------------------------------------------------------------------------------------------
+# R10: the registry getter itself (C09.R2 summarises it)
+
+def _registry_getter(model, res, c):
+    """The dispatcher object is built by its real constructor, one function is registered under KNOWN through the real
+    registration decorator, and the getter is interpreted for KNOWN and for the near-miss spellings of it."""
+    from ..absint import Interp, Func, Const, Builtin, ClassV, Unmodelled
+    getters = [(k2, c.cg.funcs[k2]) for k2 in sorted(c.cg.funcs) if c.cg.funcs[k2][1].name == 'get_for' and k2 in c.cg.cls_of]
+    res.floor('registry getters', len(getters), 1)
+    near = ['OTHER', 'KNOWN.EXT', 'KNOWN.', '.KNOWN', 'X.KNOWN', 'known', 'Known', ' KNOWN', 'KNOWN ', 'KNOWN_', 'KNOW', 'KNOWNS', '']
+    for key, (m, f) in getters:
+        cm, cc = c.cg.cls_of[key]
+        reg = model.lookup_method(cm, cc, 'register_for')
+        if not reg:
+            raise AnalysisError('dispatcher class has no register_for (anchor vanished)')
+        n = 0
+        for name in ['KNOWN'] + near:
+            it = Interp(model)
+
+            def call(interp, st, name=name):
+                d = interp.instantiate(ClassV(cm, cc), [])
+                deco = interp.call(Func(reg[0], reg[2]), [d, Const('KNOWN')])
+                interp.call(deco, [Builtin('hx:known-fn')])
+                return interp.call(Func(m, f), [d, Const(name)])
+            try:
+                outs = it.run(call)
+            except (Unmodelled, AnalysisError) as e:
+                res.ob('R10', fmt(key), {'name': name}, True, 'undecided: %s' % e)
+                continue
+            if any(o.imprecise for o in outs):
+                res.ob('R10', fmt(key), {'name': name}, True, 'undecided: %s' % outs[0].imprecise)
+                continue
+            n += 1
+            for o in outs:
+                hit = o.kind == 'return' and isinstance(o.value, Builtin) and o.value.name == 'hx:known-fn'
+                none = o.kind == 'return' and isinstance(o.value, Const) and o.value.value is None
+                ok = hit if name == 'KNOWN' else none
+                res.ob('R10', fmt(key), {'registered': 'KNOWN', 'requested': name}, ok, '%s %r' % (o.kind, o.value))
+                if not ok:
+                    res.violation('R10', '%s:%s:getter:%s' % (key[0], key[1], 'exact' if name == 'KNOWN' else 'near-miss'), m.where(f),
+                                  'with one function registered as KNOWN the getter asked for %r %s %r; it must %s: a name is resolved only '
+                                  'by its exact spelling, everything else is #NAME?' % (name, 'returns' if o.kind == 'return' else 'raises',
+                                                                                       o.value, 'return that function' if name == 'KNOWN' else
+                                                                                       'answer with nothing (None)'),
+                                  case={'requested': name}, func=key[1])
+        res.soft_floor('registry getter runs', n, 10)
